@@ -263,7 +263,8 @@ PROBES = {
 # about them - the protected slot is the retained byte string - is checked slot by slot by an always-on bounded probe instead
 # (MEASUREMENTS), so that a change to, say, the payload handling of `tbm` is not reported for C02.
 OBLIGATIONS['C02'] += [
-    ('context::*::from_cbor_value', 'body'), ('context::*::to_cbor_value', 'body'),
+    ('context::SuppPubInfo::from_cbor_value', 'body'), ('context::SuppPubInfo::to_cbor_value', 'body'),
+    ('context::CoseKdfContext::from_cbor_value', 'body'), ('context::CoseKdfContext::to_cbor_value', 'body'),
 ]
 OBLIGATIONS['C03'] += [
     ('sign::*::verify_*', 'body'), ('sign::*Builder::*create*signature', 'body'), ('sign::*Builder::*add_*signature', 'body'),
